@@ -2770,6 +2770,11 @@ func (s *Server) serveConnCounted(c net.Conn, countConcurrency bool) error {
 
 		if s.stop.Load() == 1 {
 			err = nil
+			// A response that was held back because another request is
+			// already buffered must still go out before we stop.
+			if bw != nil && bw.Buffered() > 0 {
+				err = bw.Flush()
+			}
 			break
 		}
 	}
